@@ -137,6 +137,13 @@ impl World {
         }
     }
 
+    /// Make the source a wide and deep tree (see [tree::add_wide_and_deep]).
+    pub fn widen(&mut self, rng: &mut Rng) {
+        let mut spec = self.spec.clone();
+        tree::add_wide_and_deep(&mut spec, rng, self.params.block, self.params.max_plain_size.min(400));
+        self.set_spec(spec);
+    }
+
     /// Replace the source tree.
     pub fn set_spec(&mut self, spec: Snapshot) {
         let old = std::mem::replace(&mut self.spec, spec);
